@@ -11,7 +11,7 @@ same (pre-state, call tree).
   cinit n (id v)* | cpush | cwrite id v | cpersist | cdrop | cread  -> the values every native id shows at every
                                                depth of the cache stack `CStack` (native-cache layering of pkg/core/dao)
   blset n x* | blblock x | blunblock x | blstale x y     -> bl <n> <account>*               Policy's blocked-accounts cache, in its order
-Tree tokens: [ nodes ] ; P k v ; D k ; N e ; NN e n ; Q k [..] ; C c fl [..] ; I [..] ;
+Tree tokens: [ nodes ] ; P k v ; D k ; N e ; NN e n ; Q k [..] ; ED k variant ; C c fl [..] ; I [..] ;
   T [body] hasC [cat] hasF [fin] ; X ; A ; G tok to amt fl hasCb [cb] ; F v fl ; B a fl tag ; U a fl ; Y d fl ;
   M nefV fl ; Z fl tag ; KR fl ; KU w fl ; OR u fl ; OF fl ; NL till fl ; NW to fl ; GP v fl ; R role v fl ; W c fee fl ; V c fl ; E to amt fl tag hasCb [cb] ; O on fl tag   (txg | tree: out-of-gas transaction)
 -/
@@ -65,6 +65,10 @@ mutual
     | "Q" :: k :: r => do
       let (b, r) ← pList self r
       some (.ifp (← k.toNat?) b, r)
+    | "ED" :: k :: _variant :: r => do
+      -- a stored value is read, bytes derived from it are edited in place and dropped: for the model a read
+      -- (stored values are immutable: Props/C04 `only_put_del_native_change_store`)
+      some (.ifp (← k.toNat?) .skip, r)
     | "C" :: c :: fl :: r => do
       let c ← c.toNat?
       let (b, r) ← pList c r
